@@ -25,6 +25,8 @@ type thread struct {
 }
 
 type scheduler struct {
+	preemptAll bool
+	explicit   bool
 	threads   []*thread
 	cur       *thread
 	dead      bool
@@ -64,6 +66,15 @@ func (s *scheduler) runnable() []*thread {
 // yield is called by the running thread at a yield point. cond (may be nil)
 // tells when this thread can continue.
 func (s *scheduler) yield(cond func() bool, why string) {
+	// Cooperative by default: an operation that does not block (a send on a buffered channel with
+	// room, a receive with data ready, a free mutex) continues without a context switch. Context
+	// switches happen where a thread blocks or exits and at explicit yield points (verifYield, the
+	// store model's statement boundaries). verifPreempt(true) makes every synchronisation
+	// operation a switch point.
+	if !s.preemptAll && !s.explicit && (cond == nil || cond()) {
+		return
+	}
+	s.explicit = false
 	me := s.cur
 	me.enabled = cond
 	s.dispatch(me, why)
